@@ -44,6 +44,10 @@ def hostile_projects(rng, files, quick):
         [("a.jst", J + "TYPE @a\n@b\nTYPE @b\n@a\n")],
         [("a.jst", J + "ENUM @e\n[1,2]\nTYPE @a\n{\"x\": @b}\nTYPE @b\n{\"y\": 1}\n")],
         [("a.jst", J + "GET /a\n  200 @nope\n")],
+        # undefined types (one inside an OR shortcut) in types that refer to one another: the library's position for the
+        # second lies past the end of the file
+        [("a.jst", J + 'TYPE @s\n{\n  "a": @nopeA, // {optional: true}\n  "l" : @l,\n  "b": @s | @nopeB\n}\n\nTYPE @l\n{\n  "s": @s // {optional: true}\n}\n')] ,
+        [("a.jst", J + 'TYPE @l\n{\n  "s": @s // {optional: true}\n}\n\nTYPE @s\n{\n  "b": @s | @nopeB,\n  "l" : @l\n}\n')],
         [("a.jst", J + "GET /a /*/")], [("a.jst", J + "GET /a /*")],
         [("a.jst", J + "Description\n(see) hello\nGET /x\n  200 any\n")],
         [("a.jst", J + "URL /a/{x}\n  Path\n  {\"x\": 1}\n  Path\n  {\"x\": 2}\n")],
